@@ -89,7 +89,7 @@ func (s *Snapshot) Digest(res TxResult) string {
 			h.Write(e.v)
 		}
 	}
-	fmt.Fprintf(h, "ok=%v|log=%s|", res.OK, res.Log)
+	fmt.Fprintf(h, "ok=%v|log=%s|err=%s|code=%s/%d|gas=%d|", res.OK, res.Log, res.Err, res.Codespace, res.Code, res.Gas)
 	h.Write(res.Data)
 	for _, e := range res.Events {
 		fmt.Fprintf(h, "ev=%s|", e.Type)
